@@ -92,6 +92,12 @@ pub fn annotate(w: &World, op: &Op) -> String {
                 _ => "whole_close_in_band=err".to_string(),
             }
         }
+        Op::Eng { sender, m: EMsg::Open { vamm, side, .. }, .. } => {
+            // an open against an existing position: what the position is worth at spot decides reduce vs reverse
+            let p = match w.position(*vamm, *sender) { Some(p) => p, None => return String::new() };
+            if p.size.value.is_zero() || (p.direction == mv::Direction::AddToAmm) == (*side == Side::Buy) { return String::new(); }
+            match spot_pnl(w, *vamm, *sender) { Some(pn) => format!("spot_notional={}", pn.position_notional), None => String::new() }
+        }
         _ => String::new(),
     }
 }
@@ -258,7 +264,7 @@ pub struct Profile {
     pub len: usize,
     pub w_open: u64, pub w_close: u64, pub w_deposit: u64, pub w_withdraw: u64, pub w_liq: u64,
     pub w_funding: u64, pub w_block: u64, pub w_oracle: u64, pub w_cfg: u64, pub w_malformed: u64,
-    pub w_steer_liq: u64, pub w_pause: u64, pub w_caps: u64, pub w_pcf: u64, pub w_c16: u64, pub w_band: u64, pub w_drain: u64, pub w_zeroeq: u64,
+    pub w_steer_liq: u64, pub w_pause: u64, pub w_caps: u64, pub w_pcf: u64, pub w_c16: u64, pub w_band: u64, pub w_drain: u64, pub w_zeroeq: u64, pub w_reduce: u64,
 }
 
 impl Profile {
@@ -273,13 +279,14 @@ impl Profile {
             "pcf" => { p.w_close = 12; p.w_block = 8; p.w_funding = 8; p.w_oracle = 6; p.w_open = 30; p.w_steer_liq = 3; p.w_pcf = 14; }
             "drain" => { p.w_steer_liq = 18; p.w_liq = 6; p.w_open = 26; p.w_oracle = 6; p.w_drain = 10; }
             "c16" => { p.w_c16 = 16; p.w_open = 30; p.w_steer_liq = 4; }
+            "reduce" => { p.w_reduce = 16; p.w_open = 30; p.w_block = 10; }
             _ => {}
         }
         p
     }
     pub fn general(len: usize) -> Profile {
         Profile { len, w_open: 36, w_close: 10, w_deposit: 4, w_withdraw: 5, w_liq: 4, w_funding: 5, w_block: 14,
-                  w_oracle: 4, w_cfg: 2, w_malformed: 5, w_steer_liq: 7, w_pause: 1, w_caps: 2, w_pcf: 0, w_c16: 0, w_band: 0, w_drain: 0, w_zeroeq: 3 }
+                  w_oracle: 4, w_cfg: 2, w_malformed: 5, w_steer_liq: 7, w_pause: 1, w_caps: 2, w_pcf: 0, w_c16: 0, w_band: 0, w_drain: 0, w_zeroeq: 3, w_reduce: 2 }
     }
 }
 
@@ -327,6 +334,18 @@ pub fn with_position(w: &World) -> Vec<(u32, u32)> {
 /// make (v,t) liquidatable by configuration: maintenance := observed margin ratio (+delta), oracle := spot
 pub fn steer_liquidatable(tr: &mut Tracer, w: &mut World, rng: &mut Rng, v: u32, t: u32) {
     let d = unit(w.d.decimals);
+    // one time in six the liquidation happens with the price exactly on the edge of the per-block band: a small trade
+    // by somebody else moves the price in this block, and the limit is then set so that the edge is the current price
+    let edge = rng.chance(1, 6);
+    if edge {
+        let others: Vec<u32> = TRADERS.iter().cloned().filter(|x| *x != t).collect();
+        let who = *rng.pick(&others);
+        let q = vamm_state(w, v).quote_asset_reserve.u128();
+        let n = q / (20 + rng.below(200) as u128) + 1;
+        if n < 2_000_000u128 * d {
+            let op = mk_open(w, who, v, if rng.chance(1, 2) { Side::Buy } else { Side::Sell }, n, d, 0); tr.step(w, &op);
+        }
+    }
     let mr = match margin_ratio(w, v, t) { Some(m) => m, None => return };
     let target: u128 = if mr.negative { *rng.pick(&[0u128, 1, d / 20]) } else {
         let m = mr.value.u128();
@@ -348,6 +367,29 @@ pub fn steer_liquidatable(tr: &mut Tracer, w: &mut World, rng: &mut Rng, v: u32,
             let p = match rng.below(12) { 0 => sp * 11 / 10, 1 => sp * 9 / 10, 2 => sp * 10 / 11 + 1, 3 => sp * 10 / 11, 4 => sp * 1000 / 1105, 5 => sp * 1000 / 1095,
                                           6 => sp * 1000 / 1050, 7 => sp * 10 / 9, 8 => sp * 1000 / 905, _ => sp };
             tr.step(w, &Op::Feed { sender: ID_OWNER, m: PMsg::Append { price: p, t: bi.time.seconds() } });
+        }
+    }
+    if edge {
+        // reference price of the band with a zero limit = price at the end of the previous block
+        tr.step(w, &Op::Vamm { sender: ID_OWNER, v, m: VMsg::UpdCfg { hold: None, oi: None, toll: None, spread: None, fluct: Some(0), engine: None, ifund: None, feed: None, twap: None } });
+        let spot: Option<Uint128> = w.q(&w.addr(v), &mv::QueryMsg::SpotPrice {});
+        if let (Some(sp), Some((r, _))) = (spot, w.band(v)) {
+            let sp = sp.u128();
+            let vd = vamm_cfg(w, v).decimals.u128();
+            let mut found: Option<u128> = None;
+            if r > 0 && sp != r {
+                if let Some(x) = sp.checked_mul(vd) {
+                    let est = if sp > r { (x / r).saturating_sub(vd) } else { vd.saturating_sub(x / r) };
+                    for l in est.saturating_sub(2)..=est + 2 {
+                        if l == 0 || l >= vd { continue; }
+                        let e = if sp > r { r.checked_mul(vd + l).map(|y| y / vd) } else { r.checked_mul(vd - l).map(|y| y / vd) };
+                        if e == Some(sp) { found = Some(l); break; }
+                    }
+                }
+            }
+            if let Some(l) = found {
+                tr.step(w, &Op::Vamm { sender: ID_OWNER, v, m: VMsg::UpdCfg { hold: None, oi: None, toll: None, spread: None, fluct: Some(l), engine: None, ifund: None, feed: None, twap: None } });
+            }
         }
     }
     let limit = 0;
@@ -393,13 +435,33 @@ pub fn drain_macro(tr: &mut Tracer, w: &mut World, rng: &mut Rng, v: u32) {
         let op = mk_open(w, who, v, if rng.chance(1, 2) { Side::Buy } else { Side::Sell }, mc, d, 0); tr.step(w, &op);
     }
     tr.step(w, &Op::Block { dt: 1 + rng.below(20), dh: 1 });
+    // half of the time the second long is topped up so that the bad debt its full liquidation realises is exactly
+    // the prepaid amount (or one unit off): the boundary of realize_bad_debt
+    if rng.chance(1, 2) {
+        let st: Option<crate::world::RawEngineState> = w.raw_singleton(&w.engine, b"state");
+        let mwf: Option<me::Position> = w.q(&w.engine, &me::QueryMsg::PositionWithFundingPayment { vamm: w.addr(v).to_string(), trader: w.addr(b).to_string() });
+        if let (Some(st), Some(m), Some(pn)) = (st, mwf, spot_pnl(w, v, b)) {
+            let cfg = eng_cfg(w);
+            let prepaid = st.prepaid_bad_debt.u128();
+            let fee = pn.position_notional.u128().saturating_mul(cfg.liquidation_fee.u128()) / d / 2;
+            if pn.unrealized_pnl.negative && pn.unrealized_pnl.value.u128() > m.margin.u128() && prepaid > 0 && fee <= prepaid {
+                let bad = pn.unrealized_pnl.value.u128() - m.margin.u128() + fee;
+                if bad > prepaid {
+                    tr.step(w, &Op::Eng { sender: ID_OWNER, funds: 0, m: EMsg::UpdCfg { owner: None, ifund: None, fpool: None, init: None, maint: None, plr: Some(0), liqfee: None } });
+                    let x = bad - prepaid;
+                    let amt = match rng.below(4) { 0 => x + 1, 1 => x.saturating_sub(1).max(1), _ => x };
+                    tr.step(w, &Op::Eng { sender: b, funds: if w.d.native { amt } else { 0 }, m: EMsg::Deposit { vamm: v, amt } });
+                }
+            }
+        }
+    }
     steer_liquidatable(tr, w, rng, v, b);
 }
 
 pub fn history(tr: &mut Tracer, w: &mut World, rng: &mut Rng, p: &Profile) {
     let d = unit(w.d.decimals);
     let total = p.w_open + p.w_close + p.w_deposit + p.w_withdraw + p.w_liq + p.w_funding + p.w_block + p.w_oracle
-        + p.w_cfg + p.w_malformed + p.w_steer_liq + p.w_pause + p.w_caps + p.w_pcf + p.w_c16 + p.w_band + p.w_drain + p.w_zeroeq;
+        + p.w_cfg + p.w_malformed + p.w_steer_liq + p.w_pause + p.w_caps + p.w_pcf + p.w_c16 + p.w_band + p.w_drain + p.w_zeroeq + p.w_reduce;
     for _ in 0..p.len {
         let nv = w.vamms.len() as u64;
         let v = ID_VAMM0 + rng.below(nv) as u32;
@@ -626,6 +688,37 @@ pub fn history(tr: &mut Tracer, w: &mut World, rng: &mut Rng, p: &Profile) {
             tr.step(w, &Op::Eng { sender: pt, funds: if w.d.native { amt } else { 0 }, m: EMsg::Deposit { vamm: pv, amt } });
             let fees = w.position(pv, pt).map(|p| calc_fee(w, pv, p.notional.u128())).unwrap_or(0);
             tr.step(w, &Op::Eng { sender: pt, funds: if w.d.native { fees } else { 0 }, m: EMsg::Close { vamm: pv, limit: 0 } });
+        } else if take(p.w_reduce) {
+            // an opposite-side OpenPosition with a limit, sized around what the position is worth at spot and on the
+            // TWAP, right after somebody else moved the price in the position's favour (the two valuations differ)
+            let ps = with_position(w);
+            if ps.is_empty() { continue; }
+            let (pv, pt) = *rng.pick(&ps);
+            let p0 = match w.position(pv, pt) { Some(p) if !p.size.value.is_zero() => p, _ => continue };
+            let long = p0.direction == mv::Direction::AddToAmm;
+            let others: Vec<u32> = TRADERS.iter().cloned().filter(|x| *x != pt).collect();
+            let pusher = *rng.pick(&others);
+            if rng.chance(1, 2) { tr.step(w, &Op::Block { dt: 1 + rng.below(600), dh: 1 }); }
+            let q = vamm_state(w, pv).quote_asset_reserve.u128();
+            let push = q / (3 + rng.below(12) as u128);
+            if push > 0 && push < 2_000_000u128 * d {
+                let op = mk_open(w, pusher, pv, if long { Side::Buy } else { Side::Sell }, push, d, 0); tr.step(w, &op);
+            }
+            if rng.chance(1, 2) { tr.step(w, &Op::Block { dt: 1 + rng.below(60), dh: 1 }); }
+            let nt = |o: me::PnlCalcOption| -> Option<u128> {
+                let r: Option<me::PositionUnrealizedPnlResponse> = w.q(&w.engine, &me::QueryMsg::UnrealizedPnl { vamm: w.addr(pv).to_string(), trader: w.addr(pt).to_string(), calc_option: o });
+                r.map(|x| x.position_notional.u128())
+            };
+            if let (Some(sp), Some(tw)) = (nt(me::PnlCalcOption::SpotPrice), nt(me::PnlCalcOption::Twap)) {
+                let (lo, hi) = (sp.min(tw), sp.max(tw));
+                let n = match rng.below(7) { 0 => lo.saturating_sub(1).max(1), 1 => lo + 1, 2 => lo + (hi - lo) / 4, 3 => lo + (hi - lo) / 2, 4 => hi.saturating_sub(1).max(1), 5 => hi + 1, _ => lo / 2 + 1 };
+                let side = if long { Side::Sell } else { Side::Buy };
+                let dir = if long { mv::Direction::RemoveFromAmm } else { mv::Direction::AddToAmm };
+                let qa: Option<Uint128> = w.q(&w.addr(pv), &mv::QueryMsg::InputAmount { direction: dir, amount: Uint128::new(n) });
+                let limit = match qa { Some(qa) => match rng.below(4) { 0 => qa.u128().saturating_sub(1).max(1), 1 => qa.u128().max(1), 2 => qa.u128() + 1, _ => 0 }, None => 0 };
+                let op = mk_open(w, pt, pv, side, n, d, limit);
+                tr.step(w, &op);
+            }
         } else if take(p.w_drain) {
             drain_macro(tr, w, rng, v);
         } else if take(p.w_c16) {
@@ -671,7 +764,9 @@ pub fn history(tr: &mut Tracer, w: &mut World, rng: &mut Rng, p: &Profile) {
                 3 => { tr.step(w, &Op::Eng { sender: STRANGER, funds: 0, m: EMsg::Close { vamm: v, limit: 0 } }); }
                 4 => { tr.step(w, &Op::Eng { sender: STRANGER, funds: 0, m: EMsg::UpdCfg { owner: Some(STRANGER), ifund: None, fpool: None, init: None, maint: None, plr: None, liqfee: None } }); }
                 5 => { tr.step(w, &Op::Eng { sender: STRANGER, funds: 0, m: EMsg::SetPause(true) }); }
-                6 => { tr.step(w, &Op::Vamm { sender: t, v, m: VMsg::SwapIn { dir: Dir::Add, q: d, lim: 0, cgo: false } }); }
+                6 => { let dir = if rng.chance(1, 2) { Dir::Add } else { Dir::Rem };
+                       if rng.chance(1, 2) { tr.step(w, &Op::Vamm { sender: t, v, m: VMsg::SwapIn { dir, q: d, lim: 0, cgo: false } }); }
+                       else { tr.step(w, &Op::Vamm { sender: t, v, m: VMsg::SwapOut { dir, b: d / 10 + 1, lim: 0 } }); } }
                 7 => { let who = if rng.chance(1, 2) { ID_OWNER } else { t }; tr.step(w, &Op::If { sender: who, m: IMsg::Withdraw(d) }); }
                 8 => { if w.d.native { let op = Op::Eng { sender: t, funds: d / 2, m: EMsg::Open { vamm: v, side: Side::Buy, margin: d, lev: d, limit: 0 } }; tr.step(w, &op); }
                        else { tr.step(w, &Op::Eng { sender: STRANGER, funds: 0, m: EMsg::Open { vamm: v, side: Side::Buy, margin: d, lev: d, limit: 0 } }); } }
